@@ -188,6 +188,45 @@ PROPS["C16"] = dict(
                "The netlink packing of the filter (attribute layout, src/dst swap) is part of C02's S-drv stream.",
 )
 
+
+# ---- properties served by the S-drv stream (real Gtp5g driver around a simulated netlink kernel) ----
+_DRV_TB = ["model Model/Xlate.lean of internal/forwarder/gtp5g.go (Create/Update PDR, FAR, QER, URR, BAR: child-IE loop to netlink attribute list), hand-written, "
+           "tied by the S-drv differential stream: the real Gtp5g methods run against a simulated netlink kernel (fake nl.Conner under the real nl.Mux and gtp5gnl client), "
+           "every request compared byte for byte with the model's",
+           "Spec/Gtp5gRead.lean: independent reader of the gtp5g netlink rule format (attribute numbers and value widths transcribed by hand from gtp5g's genl headers); "
+           "Spec/Rules.lean: the content of each grouped IE and the rule it must produce; Spec/Arrange.lean: which child lists carry a content",
+           "Gen/Consts.lean regenerated from the pinned go-gtp5gnl / go-pfcp (attribute and command numbers) — consts_* theorems re-checked each run",
+           "go-pfcp IE accessors (the harness builds IEs with go-pfcp constructors; the driver reads them with go-pfcp accessors); go-nl attribute encoding (modelled in Wire/Netlink.lean, compared on every request)"]
+_DRV_ASSUME = ["IPv4 variants of F-TEID / UE IP address / outer header creation; SDF filters with flow description and filter id (TTC/SPI/FL branches write placeholder constants in the source and are outside 'the IE set the driver supports')",
+               "each nested attribute fits the 16-bit netlink length (hypothesis wfList of the *_bytes theorems; checked on every generated request)",
+               "little-endian host (go-nl uses native endianness)"]
+PROPS["C02"] = dict(
+    module="UpfVerif.Props.C02",
+    streams=[dict(name="drv", shards=4, shards_thorough=16, seed_per_shard=True, timeout=600, timeout_thorough=3000)],
+    rule="S-drv: random Create/Update PDR/FAR grouped IEs built with go-pfcp: every field boundary+random, 0-3 QER ids / URR ids / SDF filters (grammar-generated flow descriptions, "
+         "8% possibly invalid), PDI children and top-level children shuffled, all four source interfaces, OHC descriptions GTP-U/UDP/IPv4, SEIDs incl. 0, 1, 2^32, 2^63, 2^64-1; "
+         "the request bytes are compared with the model and read back by the Lean reader against the IE's content; distinct = distinct input lines",
+    trusted_base=_DRV_TB, assumptions=_DRV_ASSUME,
+    level_text="Kernel-checked (Props/C02.lean): for EVERY PDR/FAR content and EVERY arrangement of it as child IEs (any order, ignored children anywhere, any 64-bit SEID) the request "
+               "built by the model of gtp5g.go, read by the independent gtp5g reader, is exactly the IE's content under its own (SEID, id): ids, precedence, source interface, F-TEID, UE address, "
+               "SDF filters (src/dst and ports exchanged iff uplink, decided after all PDI children), OHR, FAR/QER/URR ids in order, apply-action word, OHC (TEID, peer, port), policy, BAR id; "
+               "order independence; the look-ups of Update FAR address the FAR the IE names; decodeTree(encList) = id for all well-formed attribute trees (bytes level). "
+               "Tie: S-drv byte-for-byte correspondence + the reader evaluated on the implementation's own bytes.",
+    level_note="Trusted: Lean kernel; Spec/Gtp5gRead.lean as the gtp5g format; hand-written Model/Xlate.lean (checked against the real driver each run, not proved equal); "
+               "go-pfcp accessors; flow description text → filter is C16's theorem (parseFlowDesc), used here as the meaning of the text.",
+)
+PROPS["C03"] = dict(
+    module="UpfVerif.Props.C03",
+    streams=[dict(name="drv", shards=4, shards_thorough=16, seed_per_shard=True, timeout=600, timeout_thorough=3000)],
+    rule="S-drv: random Create/Update QER/URR/BAR grouped IEs: rates over the full 40-bit range (UL != DL), all gate/QFI/RQI/PPI octets, 2- and 3-octet trigger words, "
+         "measurement periods incl. 0 and 2^32-1 s, 64-bit volumes with every flag subset, children shuffled; periodic registration read from the real perio.Server after each URR operation",
+    trusted_base=_DRV_TB, assumptions=_DRV_ASSUME + ["Measurement Period as a kernel attribute is outside the statement (the periodic server, not the kernel, times the reports)"],
+    level_text="Kernel-checked (Props/C03.lean): for EVERY QER/URR/BAR content and every arrangement the request reads back exactly: gate, 40-bit MBR/GBR (rate_split: high32*256+low8 = rate, "
+               "UL under UL, DL under DL), QFI, RQI, PPI, correlation id; method, info, trigger word (little-endian widening of 2/3 octets), threshold/quota flags with each volume under its flag; "
+               "BAR delay and packet count; Create URR registers (seid, urr, period) with the periodic server iff PERIO is set. Tie: S-drv + reader on the implementation's bytes + perio dump.",
+    level_note="Trusted: as C02. Known finding (recorded): Update URR never changes the periodic registration. Fixed: BAR delay truncation.",
+)
+
 # properties not claimed yet (kept current; every property has a planned executable model, see DESIGN.md)
 NOT_APPLICABLE = {}
 for _i in range(1, 21):
